@@ -179,26 +179,30 @@ def poisson_like(rng, mean):
     return dadi.Spectrum(np.array(vals))
 
 
-def gen_stats_case(rng, eps=None):
+def gen_stats_case(rng, eps=None, cfg=None):
+    """cfg (all optional) fixes: k, multinom, fixed, nb, eps, adj (bool), nested (0-based list), fullform ('nested' | 'entire'),
+    bootform ('spectrum' | 'ndarray'), nestform ('list' | 'array'), plain (scalar-return code paths)."""
+    cfg = cfg or {}
     n = rng.randint(5, 10)
-    multinom = rng.random() < 0.4
-    k = rng.choice([1, 2, 2]) if multinom else rng.choice([1, 2, 2, 3])
+    multinom = cfg.get('multinom', rng.random() < 0.4)
+    k = cfg.get('k', rng.choice([1, 2, 2]) if multinom else rng.choice([1, 2, 2, 3]))
     scale = rng.choice([4, 16, 64])
     # with the theta augmentation the model needs a parameter-free component, otherwise (p, theta) is not identifiable
-    model = LinModel(rng, n, k, fixed=multinom or rng.random() < 0.3, scale=1 if multinom else scale)
+    model = LinModel(rng, n, k, fixed=multinom or cfg.get('fixed', rng.random() < 0.3), scale=1 if multinom else scale)
     p0 = [short(rng, 0.5, 3.0, 8) for _ in range(k)]
     mean = np.asarray(model(p0, [n], [10]).data) * (scale if multinom else 1)
     data = poisson_like(rng, mean)
-    nb = k + (1 if multinom else 0) + rng.randint(2, 5)      # J (mean of nb rank-one matrices) needs more bootstraps than parameters
+    nb = cfg.get('nb', k + (1 if multinom else 0) + rng.randint(2, 5))      # J (mean of nb rank-one matrices) needs more bootstraps than parameters
     boots = [poisson_like(rng, mean) for _ in range(nb)]
-    eps = eps or rng.choice([short_eps(rng, -3, -1.5), short_eps(rng, -3, -1.5), short_eps(rng, -4, -3), short_eps(rng, -1.5, -1)])
+    eps = eps or cfg.get('eps') or rng.choice([short_eps(rng, -3, -1.5), short_eps(rng, -3, -1.5), short_eps(rng, -4, -3), short_eps(rng, -1.5, -1)])
     adj = None
-    if not multinom and rng.random() < 0.3:
+    if not multinom and cfg.get('adj', rng.random() < 0.3):
         adj = [short(rng, 0.8, 1.25, 16) for _ in range(nb)]
-    nested = sorted(rng.sample(range(k), rng.randint(1, k)))
+    nested = cfg.get('nested', sorted(rng.sample(range(k), rng.randint(1, k))))
     full = [p0[a] + rng.choice([-1, 1]) * short(rng, 0.125, 0.5, 8) for a in nested]
     return {'model': model, 'p0': p0, 'multinom': multinom, 'data': data, 'boots': boots, 'eps': eps, 'adj': adj,
-            'nested': nested, 'full': full, 'pts': [10]}
+            'nested': nested, 'full': full, 'pts': [10], 'fullform': cfg.get('fullform', 'nested'), 'bootform': cfg.get('bootform', 'spectrum'),
+            'nestform': cfg.get('nestform', 'list'), 'plain': cfg.get('plain', False), 'cfg': cfg.get('name', '')}
 
 
 def stats_in(case, op, boots=None, adj=None):
@@ -212,37 +216,56 @@ def stats_in(case, op, boots=None, adj=None):
     inp = {'md': model.enc(case['p0'], case['multinom'], live), 'd': rats(np.asarray(data.data)), 'eps': rat(case['eps']),
            'boots': [rats(np.asarray(b.data)) for b in boots] if use_boots else [],
            'adj': [rat(a) for a in adj] if use_adj else (['1'] * len(boots) if use_boots else []),
-           'nested': [a + 1 for a in case['nested']], 'full': rats(case['full'])}
+           'nested': [a + 1 for a in case['nested']], 'full': rats(case['full']),
+           'forms': [case.get('fullform', 'nested'), case.get('bootform', 'spectrum'), case.get('nestform', 'list'), 'plain' if case.get('plain') else 'full', case.get('cfg', '')]}
     return inp
 
 
 def call_stat(case, op, func=None, boots=None, adj=None):
-    """One real call, on a fresh cache unless the caller manages the cache (func given)."""
+    """One real call, on a fresh cache unless the caller manages the cache (func given).  case['bootform'] / ['nestform'] /
+    ['fullform'] select how bootstraps, nested indices and Wald's full_params are passed; with case['plain'] the value that
+    the scalar-return code path (return_FIM / return_GIM / adj_and_org = False) gives is the one recorded."""
     from dadi import Godambe
     model = func if func is not None else case['model']
     if func is None:
         Godambe.cache.clear()
     boots = case['boots'] if boots is None else boots
     adj = case['adj'] if adj is None else adj
+    if case.get('bootform') == 'ndarray':
+        boots = [np.array(np.asarray(b.data)) for b in boots]          # plain arrays: Godambe wraps each bootstrap in a Spectrum
     p0, data, pts, eps, mn = list(case['p0']), case['data'], case['pts'], case['eps'], case['multinom']
+    nested = np.array(case['nested']) if case.get('nestform') == 'array' else list(case['nested'])
+    full = list(case['full'])
+    if case.get('fullform') == 'entire':        # "entire list of parameters from complex model"
+        full = list(p0)
+        for a, v in zip(case['nested'], case['full']):
+            full[a] = v
+    plain = case.get('plain', False)
     try:
         if op == 'fim':
             u, H = Godambe.FIM_uncert(model, pts, p0, data, log=False, multinom=mn, eps=eps, return_FIM=True)
+            if plain:
+                u = Godambe.FIM_uncert(model, pts, p0, data, log=False, multinom=mn, eps=eps)
             return {'u': rats(np.asarray(u, dtype=float)), 'H': rats(np.asarray(H, dtype=float))}
         if op == 'gim':
-            u, G, H = Godambe.GIM_uncert(model, pts, boots, p0, data, log=False, multinom=mn, eps=eps, return_GIM=True,
-                                         boot_theta_adjusts=list(adj) if adj is not None else None)
+            kw = dict(log=False, multinom=mn, eps=eps, boot_theta_adjusts=list(adj) if adj is not None else None)
+            u, G, H = Godambe.GIM_uncert(model, pts, boots, p0, data, return_GIM=True, **kw)
+            if plain:
+                u = Godambe.GIM_uncert(model, pts, boots, p0, data, **kw)
             return {'u': rats(np.asarray(u, dtype=float)), 'G': rats(np.asarray(G, dtype=float)), 'H': rats(np.asarray(H, dtype=float))}
         if op == 'lrt':
-            v = Godambe.LRT_adjust(model, pts, boots, p0, data, list(case['nested']), multinom=mn, eps=eps,
+            v = Godambe.LRT_adjust(model, pts, boots, p0, data, nested, multinom=mn, eps=eps,
                                    boot_theta_adjusts=list(adj) if adj is not None else None)
             return {'v': rat(float(v))}
         if op == 'wald':
-            a, o = Godambe.Wald_stat(model, pts, boots, p0, data, list(case['nested']), list(case['full']), multinom=mn, eps=eps,
-                                     adj_and_org=True)
+            a, o = Godambe.Wald_stat(model, pts, boots, p0, data, nested, full, multinom=mn, eps=eps, adj_and_org=True)
+            if plain:
+                a = Godambe.Wald_stat(model, pts, boots, p0, data, nested, full, multinom=mn, eps=eps)
             return {'adj': rat(float(a)), 'org': rat(float(o))}
         if op == 'score':
-            a, o = Godambe.score_stat(model, pts, boots, p0, data, list(case['nested']), multinom=mn, eps=eps, adj_and_org=True)
+            a, o = Godambe.score_stat(model, pts, boots, p0, data, nested, multinom=mn, eps=eps, adj_and_org=True)
+            if plain:
+                a = Godambe.score_stat(model, pts, boots, p0, data, nested, multinom=mn, eps=eps)
             return {'adj': rat(float(a)), 'org': rat(float(o))}
     except Exception as e:
         return {'raised': type(e).__name__}
@@ -288,35 +311,76 @@ def screen(cases, ops=STAT_OPS):
     return out
 
 
-def stats_records(ctx, rng, nid):
+# Named elements of the domain that every tier draws on purpose (a few candidates per configuration are generated and
+# TLC's screening picks the first one it can decide; a configuration without a decidable candidate is reported).
+STATS_CONFIGS = [
+    {'name': 'k1-single-bootstrap', 'k': 1, 'multinom': False, 'nb': 1, 'eps': 2.0 ** -7, 'adj': False, 'nested': [0]},
+    {'name': 'k1-eps-lower-end', 'k': 1, 'multinom': False, 'nb': 3, 'eps': 1e-4, 'adj': False, 'nested': [0], 'plain': True},
+    {'name': 'k1-eps-upper-end', 'k': 1, 'multinom': False, 'nb': 3, 'eps': 1e-1, 'adj': False, 'nested': [0]},
+    {'name': 'k1-theta-augmented', 'k': 1, 'multinom': True, 'nb': 4, 'eps': 2.0 ** -8, 'nested': [0], 'fullform': 'entire'},
+    {'name': 'k2-theta-adjusts-nested-first', 'k': 2, 'multinom': False, 'nb': 5, 'eps': 2.0 ** -7, 'adj': True, 'nested': [0], 'nestform': 'array'},
+    {'name': 'k2-nested-last-entire-list', 'k': 2, 'multinom': False, 'nb': 5, 'eps': 2.0 ** -6, 'adj': False, 'nested': [1],
+     'fullform': 'entire', 'plain': True},
+    {'name': 'k2-theta-augmented-all-nested', 'k': 2, 'multinom': True, 'nb': 6, 'eps': 2.0 ** -8, 'nested': [0, 1]},
+    {'name': 'k2-theta-augmented-entire-list', 'k': 2, 'multinom': True, 'nb': 6, 'eps': 2.0 ** -7, 'nested': [1], 'fullform': 'entire',
+     'plain': True},
+    {'name': 'k3-array-bootstraps', 'k': 3, 'multinom': False, 'nb': 7, 'eps': 2.0 ** -7, 'adj': False, 'nested': [0, 2],
+     'bootform': 'ndarray', 'fixed': False},
+    {'name': 'k3-fixed-component-all-nested', 'k': 3, 'multinom': False, 'nb': 8, 'eps': 2.0 ** -8, 'adj': False, 'nested': [0, 1, 2],
+     'fixed': True, 'fullform': 'entire'},
+]
+
+
+def stats_cases(ctx, rng):
+    ncand = 3 if ctx.quick else 6
+    det = [gen_stats_case(rng, cfg=cfg) for cfg in STATS_CONFIGS for _ in range(ncand)]
+    rnd = [gen_stats_case(rng) for _ in range(10 if ctx.quick else 240)]
+    return det, rnd
+
+
+def stats_records(ctx, rng, nid, det, rnd, ok):
     recs = []
-    ncase = 20 if ctx.quick else 240
-    cases = [gen_stats_case(rng) for _ in range(ncase)]
-    ok = screen(cases)
-    undecidable = sum(len(STAT_OPS) - len(o) for o in ok)
-    for ci, case in enumerate(cases):
+    ncand = len(det) // len(STATS_CONFIGS)
+    chosen = []                       # (case, op, deterministic permutation or None)
+    missing = []
+    for ci, cfg in enumerate(STATS_CONFIGS):
         for op in STAT_OPS:
-            if op not in ok[ci]:
+            cands = [j for j in range(ci * ncand, (ci + 1) * ncand) if op in ok[j]
+                     and not (op in ('wald', 'score') and det[j]['adj'] is not None)]
+            if cfg.get('adj') and op in ('wald', 'score'):
+                continue              # Wald_stat / score_stat take no theta adjustments
+            if not cands:
+                missing.append('%s/%s' % (cfg['name'], op))
                 continue
-            if op in ('wald', 'score') and case['adj'] is not None:
-                continue          # Wald_stat / score_stat take no theta adjustments
-            out = call_stat(case, op)
-            recs.append({'id': '%s-%d' % (op, next(nid)), 'op': op, 'site': SITE[op], 'in': stats_in(case, op), 'out': out})
-            if op != 'fim' and 'raised' not in out and (ci % 2 == 0 or not ctx.quick):
-                # the same call with the bootstrap list (and its theta adjustments) in another order
-                perm = list(range(len(case['boots'])))
-                while perm == sorted(perm):
-                    rng.shuffle(perm)
-                b2 = [case['boots'][j] for j in perm]
-                a2 = [case['adj'][j] for j in perm] if case['adj'] is not None else None
-                out2 = call_stat(case, op, boots=b2, adj=a2)
-                recs.append({'id': '%s-%d' % (op, next(nid)), 'op': op, 'site': SITE[op], 'in': stats_in(case, op, boots=b2, adj=a2), 'out': out2})
-                if 'raised' in out2:
-                    po = {'raised': out2['raised']}
-                else:
-                    po = {'a': flatten(out), 'b': flatten(out2)}
-                recs.append({'id': 'perm-%d' % next(nid), 'op': 'perm', 'site': SITE[op], 'in': {'fn': op, 'perm': [j + 1 for j in perm]}, 'out': po})
-    return recs, {'stats_cases_generated': len(cases) * len(STAT_OPS), 'stats_cases_undecidable_dropped': undecidable}
+            nb = len(det[cands[0]]['boots'])
+            perm = None if nb < 2 else (list(range(nb))[::-1] if ci % 2 == 0 or nb < 3 else list(range(1, nb)) + [0])
+            chosen.append((det[cands[0]], op, perm, True))
+    undecidable = 0
+    for ci, case in enumerate(rnd):
+        o = ok[len(det) + ci]
+        undecidable += len(STAT_OPS) - len(o)
+        for op in STAT_OPS:
+            if op in o and not (op in ('wald', 'score') and case['adj'] is not None):
+                chosen.append((case, op, 'random' if (ci % 2 == 0 or not ctx.quick) else None, False))
+    for case, op, perm, _ in chosen:
+        out = call_stat(case, op)
+        recs.append({'id': '%s-%d' % (op, next(nid)), 'op': op, 'site': SITE[op], 'in': stats_in(case, op), 'out': out})
+        if op == 'fim' or perm is None or 'raised' in out:
+            continue
+        # the same call with the bootstrap list (and its theta adjustments) in another order
+        if perm == 'random':
+            perm = list(range(len(case['boots'])))
+            while perm == sorted(perm):
+                rng.shuffle(perm)
+        b2 = [case['boots'][j] for j in perm]
+        a2 = [case['adj'][j] for j in perm] if case['adj'] is not None else None
+        out2 = call_stat(case, op, boots=b2, adj=a2)
+        recs.append({'id': '%s-%d' % (op, next(nid)), 'op': op, 'site': SITE[op], 'in': stats_in(case, op, boots=b2, adj=a2), 'out': out2})
+        po = {'raised': out2['raised']} if 'raised' in out2 else {'a': flatten(out), 'b': flatten(out2)}
+        recs.append({'id': 'perm-%d' % next(nid), 'op': 'perm', 'site': SITE[op], 'in': {'fn': op, 'perm': [j + 1 for j in perm]}, 'out': po})
+    return recs, {'stats_cases_generated': len(rnd) * len(STAT_OPS), 'stats_cases_undecidable_dropped': undecidable,
+                  'stats_named_configurations': [c['name'] for c in STATS_CONFIGS],
+                  'stats_named_configurations_without_decidable_case': missing}
 
 
 # ------------------------------------------------------------------ 3. chi-square mixture
@@ -358,6 +422,11 @@ def chi2_records(ctx, rng, nid):
         inputs.append((w, 'list', [2.0, 3.0, 4.0]))
         inputs.append((w, 'ndarray', np.array([rng.uniform(0, 15) for _ in range(rng.randint(1, 6))])))
         inputs.append((w, 'ndarray0', np.array([0.0, 0.0, rng.uniform(0, 5)])))
+    # remaining ways to pass x and the weights (every tier): tuple, 2-D array, integer array, negative values; weights as list / array
+    w3 = (0.25, 0.5, 0.25)
+    inputs += [(w3, 'tuple', (1.0, 5.0)), (w3, 'ndarray2d', np.array([[0.5, 1.5], [2.5, 9.0]])), (w3, 'intarray', np.array([0, 1, 4])),
+               (w3, 'negative', np.array([-1.0, 0.0, 2.0])), (w3, 'npint', np.int64(3)),
+               (list(w3), 'pyfloat', 3.84), (np.array(w3), 'ndarray', np.array([0.0, 3.84])), (np.array([0.5, 0.5]), 'pyfloat', 2.71)]
     if not ctx.quick:
         for _ in range(200):
             w = rng.choice(weights)
@@ -366,46 +435,69 @@ def chi2_records(ctx, rng, nid):
             else:
                 inputs.append((w, 'ndarray', np.array([rng.uniform(0, 30) for _ in range(rng.randint(1, 8))])))
     for w, kind, x in inputs:
-        scalar = kind in ('pyfloat', 'npfloat', 'pyint')
-        xs = [float(x)] if scalar else [float(v) for v in x]
+        scalar = kind in ('pyfloat', 'npfloat', 'pyint', 'npint')
+        xs = [float(x)] if scalar else [float(v) for v in np.asarray(x).ravel()]
+        wform = 'array' if isinstance(w, np.ndarray) else type(w).__name__
         tab = {'cdf': [[rat(chi2_cdf(v, d)) for d in range(1, len(w))] for v in xs]}
         out = chi2_observe(x, w)
         recs.append({'id': 'chi2-%d' % next(nid), 'op': 'chi2', 'site': 'Godambe.sum_chi2_ppf',
-                     'in': {'x': rats(xs), 'scalar': scalar, 'w': rats(list(w)), 'input': kind}, 'tab': tab, 'out': out})
+                     'in': {'x': rats(xs), 'scalar': scalar, 'w': rats([float(v) for v in w]), 'input': kind, 'wform': wform}, 'tab': tab, 'out': out})
     return recs
 
 
 # ------------------------------------------------------------------ 4. histories over the shared cache
-def history_records(ctx, rng, nid):
-    """Behaviour replay: every word over the call alphabet {A,B} x {fim,lrt} x {named, transient} up to a length bound
-    (all actions of the cache machine of spec/GodambeMC.tla are always enabled, so these are its behaviours), plus
-    longer random words; driven on the real module-level cache, which is cleared only at the start of a history."""
-    from dadi import Godambe
-    recs = []
-    nsetup = 1 if ctx.quick else 6
-    alphabet = [(who, fn, tr) for who in 'AB' for fn in ('fim', 'lrt') for tr in (False, True)]
-    for s in range(nsetup):
-        # two two-parameter models of different curvature, same parameters / sample sizes / grid
-        while True:
+def history_candidates(ctx, rng):
+    """per setup: candidate pairs of two-parameter models of different curvature with the same parameters / sample sizes / grid"""
+    setups = []
+    for s in range(1 if ctx.quick else 6):
+        cand = []
+        for _ in range(6):
             n = rng.randint(6, 9)
             A, Bm = LinModel(rng, n, 2, scale=16), LinModel(rng, n, 2, scale=16)
             p0 = [short(rng, 0.75, 2.5, 8), short(rng, 0.75, 2.5, 8)]
             mean = 0.5 * (np.asarray(A(p0, [n], [10]).data) + np.asarray(Bm(p0, [n], [10]).data))
             data = poisson_like(rng, mean)
-            boots = [poisson_like(rng, mean) for _ in range(4)]
+            boots = [poisson_like(rng, mean) for _ in range(5)]
             eps = rng.choice([2.0 ** -7, 2.0 ** -6, 3 * 2.0 ** -8])
             nested = [rng.randrange(2)]
             base = {'p0': p0, 'multinom': False, 'data': data, 'boots': boots, 'eps': eps, 'adj': None, 'nested': nested,
-                    'full': [p0[nested[0]]], 'pts': [10]}
-            cA, cB = dict(base, model=A), dict(base, model=Bm)
-            if all(o == {'fim', 'lrt'} for o in screen([cA, cB], ops=('fim', 'lrt'))):
-                break
+                    'full': [p0[nested[0]] + 0.375], 'pts': [10]}
+            cand.append((dict(base, model=A), dict(base, model=Bm)))
+        setups.append(cand)
+    return setups
+
+
+def history_records(ctx, rng, nid, setups, oks):
+    """Behaviour replay: every word over the call alphabet {A,B} x {fim,lrt} x {named, transient} up to a length bound
+    (all actions of the cache machine of spec/GodambeMC.tla are always enabled, so these are its behaviours), plus
+    longer random words and words with the other functions that use the cache; driven on the real module-level cache, which is
+    cleared only at the start of a history.  Of the candidate setups (screened by TLC) the first is taken for which all five
+    statistics of both models can be decided."""
+    from dadi import Godambe
+    recs = []
+    alphabet = [(who, fn, tr) for who in 'AB' for fn in ('fim', 'lrt') for tr in (False, True)]
+    for cand, ok in zip(setups, oks):
+        both = [ok[2 * j] & ok[2 * j + 1] for j in range(len(cand))]
+        usable = [j for j in range(len(cand)) if {'fim', 'lrt'} <= both[j]]
+        if not usable:
+            raise common.MachineryError('C19 histories: no candidate model pair is decidable for FIM and LRT')
+        j = max(usable, key=lambda q: len(both[q]))
+        cA, cB = cand[j]
+        okfn = [fn for fn in ('gim', 'wald', 'score') if fn in both[j]]
         hist = History(cA, cB)
         words = [w for L in (1, 2) for w in itertools.product(alphabet, repeat=L)]
         if not ctx.quick:
             words += list(itertools.product(alphabet, repeat=3))
-        for _ in range(12 if ctx.quick else 60):
+        for _ in range(8 if ctx.quick else 60):
             words.append(tuple(rng.choice(alphabet) for _ in range(rng.randint(3, 6))))
+        # the other functions that go through the cache (GIM, Wald, score), also mixed with FIM: same stencil points, same keys
+        for fn in okfn:
+            words += [(('A', fn, False), ('B', fn, False)), (('A', fn, True), ('B', fn, True)),
+                      (('A', 'fim', True), ('B', fn, True)), (('B', fn, True), ('A', 'fim', False), ('B', 'lrt', True))]
+        if not ctx.quick:
+            big = alphabet + [(who, fn, tr) for who in 'AB' for fn in okfn for tr in (False, True)]
+            for _ in range(60):
+                words.append(tuple(rng.choice(big) for _ in range(rng.randint(2, 5))))
         for word in words:
             recs.append(hist.record('history-%d' % next(nid), word))
         Godambe.cache.clear()
@@ -427,15 +519,19 @@ class History:
         def modelB(params, ns, pts):
             return Bm(params, ns, pts)
         self.named = {'A': modelA, 'B': modelB}
-        self.fresh = {}
-        for who in 'AB':
-            for fn in ('fim', 'lrt'):
-                Godambe.cache.clear()
-                self.fresh[(who, fn)] = call_stat(self.case[who], fn, func=self.named[who])
+        self._fresh = {}
+
+    def fresh(self, who, fn):
+        from dadi import Godambe
+        if (who, fn) not in self._fresh:
+            Godambe.cache.clear()
+            self._fresh[(who, fn)] = call_stat(self.case[who], fn, func=self.named[who])
+        return self._fresh[(who, fn)]
 
     def record(self, rid, word):
         from dadi import Godambe
         A, Bm, case = self.A, self.Bm, self.case
+        fr = [self.fresh(who, fn) for who, fn, tr in word]
         Godambe.cache.clear()
         gc.collect()
         res = []
@@ -448,10 +544,9 @@ class History:
                     res.append(call_stat(case[who], fn, func=lambda params, ns, pts: Bm(params, ns, pts)))
             else:
                 res.append(call_stat(case[who], fn, func=self.named[who]))
-        fr = [self.fresh[(who, fn)] for who, fn, tr in word]
         inA = stats_in(case['A'], 'lrt')
         inp = {'models': {'A': inA['md'], 'B': stats_in(case['B'], 'lrt')['md']}, 'd': inA['d'], 'eps': inA['eps'], 'boots': inA['boots'],
-               'adj': inA['adj'], 'nested': inA['nested'],
+               'adj': inA['adj'], 'nested': inA['nested'], 'full': inA['full'],
                'steps': [{'who': who, 'fn': fn, 'transient': tr} for who, fn, tr in word]}
         if any('raised' in r for r in res + fr):
             out = {'raised': [r.get('raised', '') for r in res + fr]}
@@ -474,10 +569,12 @@ def case_from(inp, md=None):
     mdl.B = [dadi.Spectrum(np.array([_f(x) for x in row])) for row in md['B']]
     mdl.B0 = dadi.Spectrum(np.array([_f(x) for x in md['B0']]))
     adj = [_f(a) for a in inp.get('adj', [])]
+    forms = inp.get('forms', ['nested', 'spectrum', 'list', 'full', ''])
     return {'model': mdl, 'p0': [_f(x) for x in md['p']], 'multinom': md['multinom'], 'data': dadi.Spectrum(np.array([_f(x) for x in inp['d']])),
             'boots': [dadi.Spectrum(np.array([_f(x) for x in b])) for b in inp.get('boots', [])], 'eps': _f(inp['eps']),
             'adj': adj if any(a != 1.0 for a in adj) else None, 'nested': [a - 1 for a in inp['nested']],
-            'full': [_f(x) for x in inp.get('full', [])], 'pts': [10]}
+            'full': [_f(x) for x in inp.get('full', [])], 'pts': [10],
+            'fullform': forms[0], 'bootform': forms[1], 'nestform': forms[2], 'plain': forms[3] == 'plain', 'cfg': forms[4]}
 
 
 def reexecute(rec):
@@ -485,21 +582,11 @@ def reexecute(rec):
     op, inp = rec['op'], rec['in']
     new = dict(rec)
     if op in ('hess', 'grad'):
-        Q = np.array([[_f(v) for v in row] for row in inp['Q']])
-        b = np.array([_f(v) for v in inp['b']])
-        c = _f(inp['c'])
-        p = [_f(v) for v in inp['p']]
-
-        def f(x, *args):
-            x = np.asarray(x, dtype=float)
-            return 0.5 * float(x @ Q @ x) + float(b @ x) + c
-        try:
-            if op == 'hess':
-                new['out'] = {'H': rats(np.asarray(Godambe.get_hess(f, list(p), _f(inp['eps'])), dtype=float))}
-            else:
-                new['out'] = {'g': rats(np.asarray(Godambe.get_grad(f, list(p), _f(inp['eps'])), dtype=float).ravel())}
-        except Exception as e:
-            new['out'] = {'raised': type(e).__name__}
+        # the recorded constant is c + extra when the record passed a constant through args=
+        pair = stencil_pair(itertools.count(), [[_f(v) for v in row] for row in inp['Q']], [_f(v) for v in inp['b']],
+                            _f(inp['c']) - (1.75 if inp.get('args') else 0.0), [_f(v) for v in inp['p']], _f(inp['eps']),
+                            pform=inp.get('pform', 'list'), extra=1.75 if inp.get('args') else None)
+        new['out'] = pair[0 if op == 'hess' else 1]['out']
         return new
     if op in SITE:
         new['out'] = call_stat(case_from(inp), op)
@@ -507,12 +594,16 @@ def reexecute(rec):
     if op == 'chi2':
         xs = [_f(v) for v in inp['x']]
         kind = inp['input']
-        x = {'pyfloat': lambda: float(xs[0]), 'npfloat': lambda: np.float64(xs[0]), 'pyint': lambda: int(xs[0]),
-             'list': lambda: list(xs), 'ndarray': lambda: np.array(xs), 'ndarray0': lambda: np.array(xs)}[kind]()
-        new['out'] = chi2_observe(x, tuple(_f(w) for w in inp['w']))
+        x = {'pyfloat': lambda: float(xs[0]), 'npfloat': lambda: np.float64(xs[0]), 'pyint': lambda: int(xs[0]), 'npint': lambda: np.int64(xs[0]),
+             'list': lambda: list(xs), 'ndarray': lambda: np.array(xs), 'ndarray0': lambda: np.array(xs), 'tuple': lambda: tuple(xs),
+             'ndarray2d': lambda: np.array(xs).reshape(2, -1), 'intarray': lambda: np.array([int(v) for v in xs]),
+             'negative': lambda: np.array(xs)}[kind]()
+        w = tuple(_f(v) for v in inp['w'])
+        w = {'tuple': w, 'list': list(w), 'array': np.array(w)}[inp.get('wform', 'tuple')]
+        new['out'] = chi2_observe(x, w)
         return new
     if op == 'history':
-        base = dict(inp, full=[])
+        base = dict(inp)
         cA, cB = case_from(base, inp['models']['A']), case_from(base, inp['models']['B'])
         word = [(s['who'], s['fn'], s['transient']) for s in inp['steps']]
         return History(cA, cB).record(rec['id'], word)
@@ -562,8 +653,10 @@ def mutate(rec):
         r0 = out['res'][0]
         if 'H' in r0:
             r0['H'][0][0] = rat(Fraction(r0['H'][0][0]) * 3)
-        else:
+        elif 'v' in r0:
             r0['v'] = rat(Fraction(r0['v']) * 3)
+        else:
+            r0['adj'] = rat(Fraction(r0['adj']) * 10 + 1)
         out['flat'][0] = flatten(r0)
         return rec
     return None
@@ -576,15 +669,15 @@ def nontrivial(r):
         eps = Fraction(i['eps'])
         kinds = tuple(sorted({'zero' if x == 0 else 'neg' if x < 0 else 'onesided' if x * eps < Fraction(1, 10 ** 6) else 'central' for x in p}))
         lin = all(Fraction(v) == 0 for row in i['Q'] for v in row)
-        return (op, len(p), kinds, lin, int(math.floor(math.log10(float(eps)))))
+        return (op, len(p), kinds, lin, int(math.floor(math.log10(float(eps)))), i.get('pform'), i.get('args'))
     if op in SITE:
         md = i['md']
         return (op, len(md['p']), md['multinom'], len(i['boots']), tuple(i['nested']) if op in ('lrt', 'wald', 'score') else (),
-                any(a != '1' for a in i['adj']), int(math.floor(math.log10(float(Fraction(i['eps']))))))
+                any(a != '1' for a in i['adj']), int(math.floor(math.log10(float(Fraction(i['eps']))))), tuple(i.get('forms', ())))
     if op == 'perm':
         return (op, i['fn'], tuple(i['perm']))
     if op == 'chi2':
-        return (op, i['input'], tuple(i['w']), len(i['x']))
+        return (op, i['input'], tuple(i['w']), len(i['x']), i.get('wform'))
     if op == 'history':
         return (op, tuple((s['who'], s['fn'], s['transient']) for s in i['steps']))
     return None
@@ -608,10 +701,20 @@ def records(ctx):
     logging.getLogger('Inference').setLevel(logging.CRITICAL)
     nid = itertools.count()
     recs = stencil_records(ctx, random.Random(ctx.seed + 191), nid)
-    st, extra = stats_records(ctx, random.Random(ctx.seed + 192), nid)
+    rs, rh = random.Random(ctx.seed + 192), random.Random(ctx.seed + 194)
+    det, rnd = stats_cases(ctx, rs)
+    setups = history_candidates(ctx, rh)
+    flat = [c for cand in setups for pair in cand for c in pair]
+    ok = screen(det + rnd + flat)                      # one TLC pass decides which closed-form comparisons are decidable
+    ns = len(det) + len(rnd)
+    st, extra = stats_records(ctx, rs, nid, det, rnd, ok[:ns])
     recs += st
     recs += chi2_records(ctx, random.Random(ctx.seed + 193), nid)
-    recs += history_records(ctx, random.Random(ctx.seed + 194), nid)
+    oks, pos = [], ns
+    for cand in setups:
+        oks.append(ok[pos:pos + 2 * len(cand)])
+        pos += 2 * len(cand)
+    recs += history_records(ctx, rh, nid, setups, oks)
     return recs, extra
 
 
